@@ -46,6 +46,36 @@ def str_lits(body):
     return out
 
 
+def emitted(body):
+    """Candidate descriptions of the text a writer emits, as pv.strx pieces: the format sites of the body concatenated in
+    dominance order (write_all(format!(..)) / write!(..) per piece of the file), and the String handed to into_bytes /
+    as_bytes (a writer that builds the text with push / push_str / format! and converts it at the end)."""
+    from ..strx import StrX, merge
+
+    sx = StrX(body)
+    out = []
+    sites = sx.format_sites()
+    sites.sort(key=lambda x: (len([1 for y in sites if y[0] != x[0] and body.dominates(y[0], x[0])]), x[0]))
+    if sites:
+        cat_ = []
+        for _bi, pcs in sites:
+            cat_ += pcs
+        out.append(merge(cat_))
+    for _bi, t in body.calls():
+        last = (t.get("res") or "").split("::")[-1]
+        if last in ("into_bytes", "as_bytes", "into_boxed_str") and t["args"]:
+            out.append(sx.string(t["args"][0]))
+    return out, sx
+
+
+def _shape2(pcs):
+    return [("lit", p[1]) if p[0] == "lit" else (p[0],) for p in pcs]
+
+
+def _arg_ops(pcs):
+    return [p[3] if p[0] == "arg" else (p[1] if p[0] == "opaque" else None) for p in pcs if p[0] != "lit"]
+
+
 def exl_reader(ctx, er, rule, order_rule):
     """Obligations on EXL::from_existing (shared with C05, which locates sheets through the parsed root list)."""
     rl = str_lits(er)
@@ -87,12 +117,14 @@ def run(ctx):
     if not cw or not cr:
         ctx.fail_closed("SEPS", "cfg::ConfigFile::write_to_buffer / from_existing not found")
     else:
-        tpls = fmt.templates_of(ctx.wire, "cfg::ConfigFile::write_to_buffer")
-        shapes = [t.shape() for t in tpls]
-        cat = [t for t in tpls if t.shape() == [("lit", "\r\n<"), ("arg", ""), ("lit", ">\r\n")]]
-        kv = [t for t in tpls if t.shape() == [("arg", ""), ("lit", "\t"), ("arg", ""), ("lit", "\r\n")]]
-        ctx.ob("SEPS", "cfg|category-template", len(cat) == 1, f"category block template(s) {shapes}; must be CRLF '<' name '>' CRLF (the reader strips the first and last character of a bracket line)", cw.file, cw.line, sample=True)
-        ctx.ob("SEPS", "cfg|key-value-template", len(kv) == 1, "key/value line template must be key TAB value CRLF", cw.file, cw.line)
+        cands, _csx = emitted(cw)
+        want_cfg = [("lit", "\r\n<"), ("arg",), ("lit", ">\r\n"), ("arg",), ("lit", "\t"), ("arg",), ("lit", "\r\n")]
+        hit_cfg = next((c_ for c_ in cands if _shape2(c_) == want_cfg and all(p_[0] != "arg" or (p_[1] == "display" and p_[2] == (0, 10, False)) for p_ in c_)), None)
+        shapes = [_shape2(c_) for c_ in cands]
+        cat = [hit_cfg] if hit_cfg else []
+        kv = [hit_cfg] if hit_cfg else []
+        ctx.ob("SEPS", "cfg|category-template", bool(hit_cfg), f"text emitted per category and key: {shapes}; must be CRLF '<' name '>' CRLF, then key TAB value CRLF per key (the reader strips the first and last character of a bracket line)", cw.file, cw.line, sample=True)
+        ctx.ob("SEPS", "cfg|key-value-template", bool(hit_cfg), "key/value line template must be key TAB value CRLF", cw.file, cw.line)
         rl = str_lits(cr)
         # reader: contains('<') / contains('>'), split_once('\t'), compares with "\0", lines()
         conts = rl.get("contains", set())
@@ -116,8 +148,13 @@ def run(ctx):
         ctx.ob("SEPS", "cfg|bracket-strip", rng, "the category name is line[1 .. len - 1] (one bracket character on each side)", cr.file, cr.line)
         # ORDER: writer args (key.0, key.1); iterates categories then settings[category].keys
         if kv:
-            args = [(p[3] or "").replace(" ", "") for p in kv[0].pieces if p[0] == "arg"]
-            ctx.ob("ORDER", "cfg|key-then-value", args == ["key.0", "key.1"], f"key/value line arguments {args}; the reader takes (before TAB, after TAB) as (key, value)", cw.file, cw.line)
+            cwix = index_of(cw)
+            aops = _arg_ops(kv[0])
+            halves = []
+            for o_ in aops[1:3]:
+                d_ = derive(cwix, o_) if o_ is not None else None
+                halves.append(sorted({pth[-1] for pth in d_.paths if pth and pth[-1] in ("#0", "#1")}) if d_ else None)
+            ctx.ob("ORDER", "cfg|key-then-value", halves == [["#0"], ["#1"]], f"key/value line arguments are halves {halves} of the stored pair; the reader takes (before TAB, after TAB) as (key, value)", cw.file, cw.line)
         wix = index_of(cw)
         iters = []
         for _bi, t in cw.calls():
@@ -138,12 +175,20 @@ def run(ctx):
     if not ew or not er:
         ctx.fail_closed("SEPS", "exl::EXL::write_to_buffer / from_existing not found")
     else:
-        tpls = fmt.templates_of(ctx.wire, "exl::EXL::write_to_buffer")
-        shapes = [t.shape() for t in tpls]
-        hdr = [t for t in tpls if t.shape() == [("lit", "EXLT,"), ("arg", "")]]
-        row = [t for t in tpls if t.shape() == [("lit", "\n"), ("arg", ""), ("lit", ","), ("arg", "")]]
-        ctx.ob("SEPS", "exl|header-template", len(hdr) == 1 and "version" in (hdr[0].pieces[1][3] or ""), f"list header template(s) {shapes}; must be 'EXLT,' version", ew.file, ew.line)
-        ctx.ob("SEPS", "exl|row-template", len(row) == 1 and [(p[3] or "").strip() for p in row[0].pieces if p[0] == "arg"] == ["key", "value"], "row template must be LF name ',' id", ew.file, ew.line, sample=True)
+        cands, _esx = emitted(ew)
+        want_exl = [("lit", "EXLT,"), ("arg",), ("lit", "\n"), ("arg",), ("lit", ","), ("arg",)]
+        shapes = [_shape2(c_) for c_ in cands]
+        hit_exl = next((c_ for c_ in cands if [x_ if x_[0] == "lit" else ("arg",) for x_ in _shape2(c_)] == want_exl), None)
+        ewix = index_of(ew)
+        hdr_ok = row_ok = False
+        if hit_exl:
+            aops = _arg_ops(hit_exl)
+            ds_ = [derive(ewix, o_) if o_ is not None else None for o_ in aops]
+            hdr_ok = ds_[0] is not None and "version" in ds_[0].names
+            halves = [sorted({pth[-1] for pth in d_.paths if pth and pth[-1] in ("#0", "#1")}) if d_ else None for d_ in ds_[1:3]]
+            row_ok = halves == [["#0"], ["#1"]] and all(d_ is not None and "entries" in d_.names for d_ in ds_[1:3])
+        ctx.ob("SEPS", "exl|header-template", hdr_ok, f"text emitted: {shapes}; must be 'EXLT,' version, then LF name ',' id per entry", ew.file, ew.line)
+        ctx.ob("SEPS", "exl|row-template", row_ok, "row template must be LF name ',' id (the two halves of each entry, in that order)", ew.file, ew.line, sample=True)
         exl_reader(ctx, er, "SEPS", "ORDER")
         wix = index_of(ew)
         it_ok = any("entries" in derive(wix, t["args"][0]).names for _bi, t in ew.calls() if (t.get("res") or "").endswith("into_iter") or (t.get("res") or "").endswith("::iter"))
